@@ -363,7 +363,17 @@ func runC09One(cs *vrt.Case) {
 			if prog != nil {
 				d["inputs"] = argStrings(vvals[k])
 			}
+			// an exhaustively evaluated division template: the unchanged tree's
+			// failing inputs of the known GMW-divider classes are pinned; another
+			// failing input with the same signature is a new witness
+			pinned := what == "template" && strings.Contains(key, "|template-division|") && !strings.HasSuffix(key, "wrong-value") && nin <= 16 && len(vecs) == 1<<uint(nin)
+			if pinned {
+				key = vrt.WitnessKey(key, fmt.Sprintf("%s|%s|%s|%s", strings.ReplaceAll(src, "\n", " "), cf, vecs[k].Text(16), outs[i][k].Text(16)))
+			}
 			cs.Violate(key, fmt.Sprintf("configuration %s changes the program's result (input %s): %s instead of %s", cf, vecs[k].Text(16), outs[i][k].Text(16), want[k].Text(16)), d)
+			if pinned {
+				continue
+			}
 			return
 		}
 	}
